@@ -8,6 +8,7 @@ import (
 	"os"
 	"path/filepath"
 	"strings"
+	"tkestack.io/galaxy/pkg/galaxy/options"
 
 	"github.com/containernetworking/cni/pkg/skel"
 	"github.com/containernetworking/cni/pkg/types"
@@ -22,6 +23,7 @@ import (
 
 // INTERCEPT: tkestack.io/galaxy/pkg/api/cniutil.DelegateAdd => verifModelDelegateAdd
 // INTERCEPT: tkestack.io/galaxy/pkg/api/cniutil.DelegateDel => verifModelDelegateDel
+// INTERCEPT: tkestack.io/galaxy/pkg/api/cniutil.GetNetworkConfig => verifModelGetNetworkConfig
 
 // C12: multi-network ADD/DEL is ordered, paired, rolled back and isolated.
 // ASSUME: C12: the plugin binaries are replaced by a recorder with a failure plan (engine: DelegateAdd/DelegateDel intercepted by a harness model; native replay: a recording shell script on CNI_PATH run by the real DelegateAdd/DelegateDel against the real /var/lib/cni/galaxy state directory)
@@ -60,6 +62,17 @@ func vRecord(cmd string, netconf map[string]interface{}, args *skel.CmdArgs, ifN
 	n := vCount
 	vCount++
 	return n
+}
+
+// vConfDirNet: a network that is not in the JSON configuration, only in a file of --network-conf-dir
+const vConfDirNet = `{"name":"netd","type":"vplugin-b","cniVersion":"0.2.0"}`
+
+// engine side: the conf dir holds exactly netd.conf (natively vSetup writes that file and the real GetNetworkConfig reads it)
+func verifModelGetNetworkConfig(networkName, confdir string) ([]byte, error) {
+	if networkName == "netd" {
+		return []byte(vConfDirNet), nil
+	}
+	return nil, fmt.Errorf("no network %s in %s", networkName, confdir)
 }
 
 // engine side: models of cniutil.DelegateAdd / DelegateDel
@@ -101,6 +114,8 @@ func vSetup(fail []bool) string {
 		ioutil.WriteFile(filepath.Join(dir, t), []byte(vScript), 0o755)
 		os.Chmod(filepath.Join(dir, t), 0o755)
 	}
+	os.MkdirAll(filepath.Join(dir, "net.d"), 0o755)
+	ioutil.WriteFile(filepath.Join(dir, "net.d", "netd.conf"), []byte(vConfDirNet), 0o644)
 	ioutil.WriteFile(filepath.Join(dir, "count"), []byte("0\n"), 0o644)
 	plan := ""
 	for i, f := range fail {
@@ -154,6 +169,7 @@ func vNewGalaxy() *Galaxy {
 	}}
 	g.DefaultNetworks = []string{"neta", "netb"}
 	g.ENIIPNetwork = "netc"
+	g.ServerRunOptions = &options.ServerRunOptions{NetworkConfDir: filepath.Join(vDir, "net.d")}
 	return g
 }
 
@@ -172,6 +188,9 @@ var vSelections = []vSel{
 	{"netb,neta", false, []string{"vplugin-b", "vplugin-a"}, []string{"eth0", "eth1"}},
 	{"ns1/netb@if9, neta@if7,netc", true, []string{"vplugin-b", "vplugin-a", "vplugin-c"}, []string{"eth0", "if7", "eth2"}},
 	{`[{"name":"netc"},{"name":"neta","interface":"ifx"},{"name":"netb","namespace":"kube-system"}]`, false, []string{"vplugin-c", "vplugin-a", "vplugin-b"}, []string{"eth0", "ifx", "eth2"}},
+	// netd is defined only by a file in the network conf dir
+	{"neta,netd", false, []string{"vplugin-a", "vplugin-b"}, []string{"eth0", "eth1"}},
+	{"netd", false, []string{"vplugin-b"}, []string{"eth0"}},
 }
 
 func vPod(name string, sel vSel) *corev1.Pod {
@@ -233,7 +252,7 @@ func vCheckAdd(log []vCall, sel vSel, container string, fail []bool, base int) (
 	return base + n, false
 }
 
-// BOUND: 3 configured networks; 6 ways a pod selects networks (default list, ENI network, comma form with and without @ifname and namespace, JSON form with interface) ; one container; symbolic failure plan over the first 8 (thorough: 11) plugin invocations; sequence ADD, DEL, DEL, DEL
+// BOUND: 3 networks in the JSON configuration and one defined only by a file in the network conf dir; 8 ways a pod selects networks (default list, ENI network, comma form with and without @ifname and namespace, JSON form with interface, the conf-dir network alone and after another network) ; one container; symbolic failure plan over the first 8 (thorough: 11) plugin invocations; sequence ADD, DEL, DEL, DEL
 func VerifC12_q_addDelSequence() {
 	fail := vAnyFailPlan(8 + 3*verifTier())
 	dir := vSetup(fail)
@@ -291,7 +310,7 @@ func VerifC12_q_addDelSequence() {
 	verifReach("deleted")
 }
 
-// BOUND: two containers A then B with any of the 6 selections each; no plugin failures; B's invocations must be what they are without A's request before
+// BOUND: two containers A then B with any of the 8 selections each; no plugin failures; B's invocations must be what they are without A's request before
 func VerifC12_q_requestsIsolated() {
 	dir := vSetup(make([]bool, 16))
 	defer os.RemoveAll(dir)
@@ -311,7 +330,6 @@ func VerifC12_q_requestsIsolated() {
 	_ = cniutil.CmdDel(vReq("verif-a", dir).CmdArgs, -1)
 	_ = cniutil.CmdDel(vReq("verif-b", dir).CmdArgs, -1)
 }
-
 
 // vFirstArgs / vRawArgs: the CNI_ARGS string the first plugin of the last request received.
 func vFirstArgs() string { return vRawArgs() }
